@@ -19,6 +19,11 @@ class StepCap(BaseException):
     Derived from BaseException so that no `except Exception` in the code under test can swallow it."""
 
 
+class Explosion(BaseException):
+    """The simulated population left the bounded-rate domain every property is stated on (a rate
+    or Poisson mean beyond 1e9, or not finite).  The run is inconclusive, never a verdict."""
+
+
 class InjectedFault(Exception):
     """The exception thrown at a seam boundary to simulate 'this level is unavailable'."""
 
@@ -66,6 +71,16 @@ class RSeam(object):
         self.log = []
         self._last_exp = None
 
+    def reseed(self, seed):
+        """Restart the stream: scripted -> new script PRNG; natural -> np.random.seed (PyGOM's
+        documented interface for reproducibility)."""
+        import random
+        if self.mode == "scripted":
+            self.rng = random.Random(seed)
+        else:
+            np.random.seed(int(seed) % (2 ** 32))
+        self._last_exp = None
+
     def _count(self, k):
         self.fired[k] = self.fired.get(k, 0) + 1
 
@@ -81,6 +96,8 @@ class RSeam(object):
             self.log.append(("e", float(rate), float(v)))
             return v
         assert n == 1
+        if not (rate == rate) or rate > 1e9:
+            raise Explosion("clock rate %r" % rate)
         u = self.rng.random()
         f = self.faults
         r = self.rng.random()
@@ -111,6 +128,8 @@ class RSeam(object):
             return v
         assert n == 1
         mu = float(mu)
+        if not (mu == mu) or mu > 1e9:
+            raise Explosion("Poisson mean %r" % mu)
         f = self.faults
         r = self.rng.random()
         if mu <= 0.0:
